@@ -38,6 +38,8 @@ var skFuncs = []skFunc{
 	{"server/server.go", "server", "GetCompress"},
 	{"location/location.go", "Locations", "Set"},
 	{"location/location.go", "Locations", "GetLocations"},
+	{"server/cache.go", "", "NewCache"},
+	{"server/responder.go", "", "NewResponder"},
 }
 
 func q(s string) string { return "\"" + s + "\"%string" }
@@ -93,6 +95,10 @@ func (g *skGen) exprEvents(e ast.Expr) []string {
 		}
 		for _, a := range v.Args {
 			evs = append(evs, g.exprEvents(a)...)
+		}
+		if fl, ok := v.Fun.(*ast.FuncLit); ok {
+			// an immediately invoked closure (defer func() { ... }()): its body runs at the call
+			return append(evs, g.stmtsEvents(fl.Body.List)...)
 		}
 		if id, ok := v.Fun.(*ast.Ident); ok {
 			switch id.Name {
@@ -368,7 +374,11 @@ func genSkeleton(repo string, b *strings.Builder) {
 			g.recvVar = fd.Recv.List[0].Names[0].Name
 		}
 		evs := g.stmtsEvents(fd.Body.List)
-		fmt.Fprintf(b, "(* %s: (%s *%s) %s *)\nDefinition %s : list event :=\n  %s.\n", sf.file, g.recvVar, sf.recv, sf.name, cname, coqList(evs))
+		recvTxt := "func"
+		if sf.recv != "" {
+			recvTxt = fmt.Sprintf("method of %s (receiver %s)", sf.recv, g.recvVar)
+		}
+		fmt.Fprintf(b, "(* %s: %s, %s *)\nDefinition %s : list event :=\n  %s.\n", sf.file, sf.name, recvTxt, cname, coqList(evs))
 		names = append(names, cname)
 	}
 	_ = names
